@@ -5,7 +5,7 @@ From PV Require Import Model.FD.
 Extraction Language OCaml.
 Set Extraction AccessOpaque.
 Extraction "model.ml"
-  Z.add Z.mul Z.opp Z.of_nat Z.to_nat Z.quotrem Z.compare Z.eqb Z.ltb Z.leb
+  Z.add Z.sub Z.mul Z.opp Z.of_nat Z.to_nat Z.quotrem Z.compare Z.eqb Z.ltb Z.leb
   fd_iter fd_iter_rev fd_min fd_max fd_is_singleton fd_singleton_value fd_contains
   fd_copy_before fd_drop_before fd_intersect fd_diff fd_is_disjoint fd_eqb fd_eqb_subset
   fd_from_vec fd_from_vec_nodedup fd_from_range fd_from_value.
